@@ -2,6 +2,7 @@ package props
 
 import (
 	"fmt"
+	"math"
 	"reflect"
 	"testing"
 
@@ -24,7 +25,13 @@ type C15Pred struct {
 	Prior string  `json:"prior"` // none | allfalse | random | alltrue
 	PMask []bool  `json:"pmask,omitempty"`
 	Root  string  `json:"root"`
+	// Values (floats only): V1 is the value, RTol/ATol index c15Tols; ATol 0: no absolute tolerance is passed
+	RTol int `json:"rtol,omitempty"`
+	ATol int `json:"atol,omitempty"`
 }
+
+// tolerances for MaskedValues: exactly representable, so that |a-v| <= atol + rtol*|v| is decided exactly
+var c15Tols = []float64{0, 0.5, 1, 2}
 
 func init() { register("C15.pred", func() Case { return &C15Pred{} }) }
 
@@ -90,6 +97,9 @@ func (c *C15Pred) Run() string {
 		}
 	}
 	desc := fmt.Sprintf("Masked%s(%s, %s) on %s %v soft=%v prior=%s", c.Pred, fmtVal(v1), fmtVal(v2), c.DT, fmtVals(arr.E), c.Soft, c.Prior)
+	if c.Pred == "Values" {
+		return c.runValues(t, arr, prior, v1)
+	}
 	var lerr error
 	pan := try(func() {
 		m := reflect.ValueOf(t).MethodByName("Masked" + c.Pred)
@@ -136,6 +146,88 @@ func (c *C15Pred) Run() string {
 	return ""
 }
 
+
+// runValues: MaskedValues(v, rtol[, atol]) marks the elements within atol + rtol*|v| of v (without an
+// absolute tolerance: the elements equal to v; the generated elements differ from v by 0 or by at least 1/2,
+// and |v| is small, so every reading of the default tolerance agrees). Floats only; other types are refused.
+func (c *C15Pred) runValues(t *tensor.Dense, arr Arr, prior []bool, v1 interface{}) string {
+	d := arr.DT
+	rtol := c15Tols[c.RTol%len(c15Tols)]
+	desc := fmt.Sprintf("MaskedValues(%s, rtol %v, atol index %d) on %s %v soft=%v prior=%s", fmtVal(v1), rtol, c.ATol, c.DT, fmtVals(arr.E), c.Soft, c.Prior)
+	wasMasked := t.IsMasked()
+	var lerr error
+	pan := try(func() {
+		var r, a interface{}
+		if d.Name == "float32" {
+			r = float32(rtol)
+			if c.ATol > 0 {
+				a = float32(c15Tols[(c.ATol-1)%len(c15Tols)])
+			}
+		} else {
+			r = rtol
+			if c.ATol > 0 {
+				a = c15Tols[(c.ATol-1)%len(c15Tols)]
+			}
+		}
+		if !d.IsFloat() {
+			r, a = v1, nil
+		}
+		if a != nil {
+			lerr = t.MaskedValues(v1, r, a)
+		} else {
+			lerr = t.MaskedValues(v1, r)
+		}
+	})
+	if !d.IsFloat() {
+		rec.Class("values:refused-type")
+		if pan == "" && lerr == nil {
+			return desc + ": accepted for a non-float element type"
+		}
+		if t.IsMasked() != wasMasked {
+			return desc + ": refused, but the tensor's mask changed"
+		}
+		return ""
+	}
+	if pan != "" {
+		return desc + " panicked: " + pan
+	}
+	if lerr != nil {
+		return desc + " failed: " + lerr.Error()
+	}
+	x := toF64(v1)
+	delta := 1.0e-8
+	if c.ATol > 0 {
+		delta = c15Tols[(c.ATol-1)%len(c15Tols)] + rtol*math.Abs(x)
+	}
+	for k, cc := range coordsOf(c.Shape) {
+		diff := toF64(arr.E[k]) - x
+		if d.Name == "float32" {
+			diff = float64(arr.E[k].(float32) - v1.(float32))
+		}
+		want := math.Abs(diff) <= delta
+		if !c.Soft && prior != nil {
+			want = want || prior[k]
+		}
+		var got bool
+		var err error
+		if len(c.Shape) == 0 {
+			if !t.IsMasked() {
+				return desc + ": the tensor is not masked afterwards"
+			}
+			got = t.Mask()[0]
+		} else if got, err = t.MaskAt(cc...); err != nil {
+			return desc + fmt.Sprintf(": MaskAt(%v): %v", cc, err)
+		}
+		if got != want {
+			return desc + fmt.Sprintf(": mask bit at %v (element %s) is %v, expected %v", cc, fmtVal(arr.E[k]), got, want)
+		}
+	}
+	if m := compareAt(t, arr, bitEqVal); m != "" {
+		return desc + ": the elements changed: " + m
+	}
+	return ""
+}
+
 // ---------------------------------------------------------------- inspection, every mask
 
 type C15Inspect struct {
@@ -144,6 +236,7 @@ type C15Inspect struct {
 	Root    string `json:"root"`
 	PerAxis bool   `json:"per_axis,omitempty"` // also check MaskedCount(axis) (open finding F22: excluded by the generators)
 	L       Layout `json:"layout,omitempty"`   // a masked tensor that is lazily transposed / a view (zero: the plain root)
+	DT      string `json:"dt,omitempty"`       // element type (default int16)
 }
 
 func init() { register("C15.inspect", func() Case { return &C15Inspect{} }) }
@@ -157,7 +250,7 @@ func (c *C15Inspect) NTKey() string {
 	if !any || all {
 		return ""
 	}
-	return fmt.Sprintf("%v|%v|%s|%v", c.Shape, c.Mask, c.Root, c.L)
+	return fmt.Sprintf("%v|%v|%s|%v|%s", c.Shape, c.Mask, c.Root, c.L, c.DT)
 }
 
 // runs returns the maximal runs [start,end) of positions whose mask bit equals want.
@@ -180,6 +273,9 @@ func runs(mask []bool, want bool) [][2]int {
 
 func (c *C15Inspect) Run() string {
 	d := dtInt16
+	if c.DT != "" {
+		d = dtByName(c.DT)
+	}
 	arr := seqArr(d, c.Shape, 1)
 	l := c.L
 	if l.Root == "" {
@@ -272,6 +368,9 @@ func (c *C15Inspect) Run() string {
 			if !chk("ClumpMasked", t.ClumpMasked(), runs(c.Mask, true)) {
 				return
 			}
+			if !chk("ClumpUnmasked", t.ClumpUnmasked(), runs(c.Mask, false)) {
+				return
+			}
 			edges := func(want bool) (int, int) {
 				f, l := -1, -1
 				for i, m := range c.Mask {
@@ -320,33 +419,30 @@ func (c *C15Inspect) Run() string {
 			msg = fmt.Sprintf("%s: Filled changed its receiver: %s", desc, m)
 			return
 		}
-		if !c.PerAxis {
-			rec.Class("excluded:F22-per-axis")
-		} else {
-			// per-axis counts
-			for ax := range c.Shape {
-				if len(c.Shape) < 2 {
-					break
-				}
-				got := t.MaskedCount(ax)
-				gd, ok := got.(*tensor.Dense)
-				if !ok {
-					msg = fmt.Sprintf("%s: MaskedCount(%d) returned %T %v", desc, ax, got, got)
-					return
-				}
-				ma := Arr{DT: dtInt, Shape: c.Shape, E: make([]interface{}, n)}
-				for k := range ma.E {
-					ma.E[k] = 0
-					if c.Mask[k] {
-						ma.E[k] = 1
-					}
-				}
-				wantCt := ma.ReduceAxes([]int{ax}, func(acc, v interface{}) interface{} { return acc.(int) + v.(int) })
-				if m := compareAt(gd, wantCt, eqVal); m != "" {
-					msg = fmt.Sprintf("%s: MaskedCount(%d): %s", desc, ax, m)
-					return
+		// without a value: the element type's default fill value, at the same positions
+		if dv := t.FillValue(); dv != nil {
+			wantD := arr.Clone()
+			for k := range wantD.E {
+				if c.Mask[k] {
+					wantD.E[k] = dv
 				}
 			}
+			f, ferr := t.Filled()
+			if ferr != nil {
+				msg = fmt.Sprintf("%s: Filled() failed: %v", desc, ferr)
+				return
+			}
+			if m := compareAt(f.(*tensor.Dense), wantD, bitEqVal); m != "" {
+				msg = fmt.Sprintf("%s: Filled() with the default fill value %v: %s", desc, dv, m)
+				return
+			}
+		}
+		// per-axis counts and queries: the answer for each position of the remaining axes; vector-shaped
+		// tensors ((n), (1,n), (n,1)) get the whole-array answer whatever the axis (pinned by the suite), an
+		// axis that does not exist is answered with -1
+		if m := c.perAxis(t, desc); m != "" {
+			msg = m
+			return
 		}
 		// FilledInplace last (it modifies the tensor)
 		if _, ferr = t.FilledInplace(fill); ferr != nil {
@@ -368,6 +464,80 @@ func (c *C15Inspect) Run() string {
 		return desc + " panicked: " + pan
 	}
 	return msg
+}
+
+
+// perAxis checks MaskedCount/NonMaskedCount/MaskedAny/MaskedAll with an axis argument against the mask.
+func (c *C15Inspect) perAxis(t *tensor.Dense, desc string) string {
+	n := len(c.Mask)
+	shape := []int(t.Shape())
+	if t.IsScalar() {
+		shape = nil
+	}
+	cnt := 0
+	for _, m := range c.Mask {
+		if m {
+			cnt++
+		}
+	}
+	ma := Arr{DT: dtInt, Shape: shape, E: make([]interface{}, n)}
+	for k := range ma.E {
+		ma.E[k] = 0
+		if c.Mask[k] {
+			ma.E[k] = 1
+		}
+	}
+	if len(shape) == 2 && shape[0] == 1 && shape[1] == 1 {
+		return "" // (1,1): the whole-array answer and the per-axis answer say the same; either form is taken
+	}
+	isVec := len(shape) == 1 || (len(shape) == 2 && (shape[0] == 1 || shape[1] == 1))
+	type fnT struct {
+		name  string
+		call  func(ax int) interface{}
+		whole interface{}
+		dt    DT
+		conv  func(masked, length int) interface{}
+	}
+	fns := []fnT{
+		{"MaskedCount", func(ax int) interface{} { return t.MaskedCount(ax) }, cnt, dtInt, func(m, l int) interface{} { return m }},
+		{"NonMaskedCount", func(ax int) interface{} { return t.NonMaskedCount(ax) }, n - cnt, dtInt, func(m, l int) interface{} { return l - m }},
+		{"MaskedAny", func(ax int) interface{} { return t.MaskedAny(ax) }, cnt > 0, dtBool, func(m, l int) interface{} { return m > 0 }},
+		{"MaskedAll", func(ax int) interface{} { return t.MaskedAll(ax) }, cnt == n, dtBool, func(m, l int) interface{} { return m == l }},
+	}
+	for _, f := range fns {
+		for ax := 0; ax <= len(shape); ax++ {
+			got := f.call(ax)
+			switch {
+			case isVec:
+				rec.Class("per-axis:vector")
+				if got != f.whole {
+					return fmt.Sprintf("%s: %s(%d) on a vector-shaped tensor = %v, expected the whole-array answer %v", desc, f.name, ax, got, f.whole)
+				}
+			case ax >= len(shape):
+				if got != -1 {
+					return fmt.Sprintf("%s: %s(%d) for an axis the tensor does not have = %v, expected -1", desc, f.name, ax, got)
+				}
+			default:
+				rec.Class("per-axis:tensor")
+				gd, ok := got.(*tensor.Dense)
+				if !ok {
+					return fmt.Sprintf("%s: %s(%d) returned %T %v", desc, f.name, ax, got, got)
+				}
+				sums := ma.ReduceAxes([]int{ax}, func(acc, v interface{}) interface{} { return acc.(int) + v.(int) })
+				want := Arr{DT: f.dt, Shape: sums.Shape, E: make([]interface{}, len(sums.E))}
+				for k, v := range sums.E {
+					want.E[k] = f.conv(v.(int), shape[ax])
+				}
+				if !eqInts([]int(gd.Shape()), want.Shape) {
+					return fmt.Sprintf("%s: %s(%d) has shape %v, expected %v", desc, f.name, ax, gd.Shape(), want.Shape)
+				}
+				if m := compareAt(gd, want, eqVal); m != "" {
+					return fmt.Sprintf("%s: %s(%d): %s", desc, f.name, ax, m)
+				}
+			}
+		}
+	}
+	return ""
 }
 
 // C15AllMasks sweeps every mask over the elements of a shape.
@@ -577,6 +747,107 @@ func (c *C15Carry) Run() string {
 	return ""
 }
 
+
+// ---------------------------------------------------------------- single mask bits
+
+// C15Set: SetMaskAt(v, coord...) sets the mask bit of exactly that element - through a view or a lazy
+// transposition the bit of the element the coordinate names, nothing else in the tensor or its parent -
+// and MaskAt reads it back; a coordinate outside the tensor is refused and changes nothing.
+type C15Set struct {
+	Shape []int  `json:"shape"`
+	Mask  []bool `json:"mask"`
+	L     Layout `json:"layout"`
+	K     int    `json:"k"`   // logical position of the element whose bit is set
+	V     bool   `json:"v"`
+	Bad   int    `json:"bad"` // 0: valid coordinate; 1: one component == dimension; 2: negative; 3: one component too few; 4: one too many
+}
+
+func init() { register("C15.set", func() Case { return &C15Set{} }) }
+
+func (c *C15Set) NTKey() string {
+	if c.Bad == 0 && c.Mask[c.K%len(c.Mask)] == c.V {
+		return "" // the bit already has the value
+	}
+	return fmt.Sprintf("%v|%v|%v|%d|%v|%d", c.Shape, c.Mask, c.L, c.K, c.V, c.Bad)
+}
+
+func (c *C15Set) Run() string {
+	arr := seqArr(dtInt16, c.Shape, 1)
+	b, err := Build(arr, c.L, c.Mask)
+	if err != nil {
+		return inconclusive
+	}
+	t := b.T
+	if !t.IsMasked() || len(c.Shape) == 0 {
+		return inconclusive
+	}
+	rec.Class("set-layout:" + c.L.Kind())
+	k := c.K % len(c.Mask)
+	coords := coordsOf(c.Shape)
+	cc := cloneInts(coords[k])
+	ax := c.K % len(c.Shape)
+	switch c.Bad {
+	case 1:
+		cc[ax] = c.Shape[ax]
+	case 2:
+		cc[ax] = -1
+	case 3:
+		cc = cc[:len(cc)-1]
+	case 4:
+		cc = append(cc, 0)
+	}
+	desc := fmt.Sprintf("SetMaskAt(%v, %v) on shape %v (%v) mask %v", c.V, cc, c.Shape, c.L, c.Mask)
+	rootMaskBefore := append([]bool{}, b.Root.Mask()...)
+	var lerr error
+	if pan := try(func() { lerr = t.SetMaskAt(c.V, cc...) }); pan != "" {
+		return desc + " panicked: " + pan
+	}
+	want := append([]bool{}, c.Mask...)
+	if c.Bad == 0 {
+		if lerr != nil {
+			return desc + " failed: " + lerr.Error()
+		}
+		want[k] = c.V
+	} else {
+		rec.Class("set:refused")
+		if lerr == nil {
+			return desc + ": a coordinate outside the tensor was accepted"
+		}
+	}
+	for i, co := range coords {
+		got, err := t.MaskAt(co...)
+		if err != nil {
+			return desc + fmt.Sprintf(": MaskAt(%v): %v", co, err)
+		}
+		if got != want[i] {
+			return desc + fmt.Sprintf(": afterwards the mask bit at %v is %v, expected %v", co, got, want[i])
+		}
+	}
+	if m := compareAt(t, arr, bitEqVal); m != "" {
+		return desc + ": the elements changed: " + m
+	}
+	if !b.Detached {
+		// the parent's bits: only the bit of the element named may differ
+		now := b.Root.Mask()
+		if len(now) != len(rootMaskBefore) {
+			return desc + fmt.Sprintf(": the parent's mask now has %d entries, it had %d", len(now), len(rootMaskBefore))
+		}
+		allowed := -1
+		if c.Bad == 0 {
+			allowed = b.rawPos[b.Idx[k]]
+		}
+		for p := range now {
+			if now[p] != rootMaskBefore[p] && p != allowed {
+				return desc + fmt.Sprintf(": the parent's mask bit at storage position %d changed (the element named lives at %d)", p, allowed)
+			}
+		}
+		if allowed >= 0 && now[allowed] != c.V {
+			return desc + fmt.Sprintf(": the parent's mask bit of the element named (storage position %d) is %v", allowed, now[allowed])
+		}
+	}
+	return ""
+}
+
 // ---------------------------------------------------------------- cells
 
 var c15Preds = []string{"Equal", "NotEqual", "Greater", "GreaterEqual", "Less", "LessEqual", "Inside", "Outside"}
@@ -613,6 +884,29 @@ func TestC15(t *testing.T) {
 			}
 		}
 	}
+	// by-values: within a tolerance of a value (floats), refused for the other types
+	for _, d := range []DT{dtF32, dtF64, dtInt, dtUint8, dtStr} {
+		for _, soft := range []bool{true, false} {
+			d, soft := d, soft
+			cell(t, "C15", "C15.pred", fmt.Sprintf("Values/%s/soft=%v", d.Name, soft), nCases(30, 900), func(rt *rapid.T) Case {
+				shape := genShape(rt, 0, 3, 4, "s")
+				n := prod(shape)
+				c := &C15Pred{Pred: "Values", DT: d.Name, Shape: shape, Soft: soft, Root: rapid.SampledFrom([]string{"rm", "rm", "cmraw"}).Draw(rt, "root")}
+				c.Codes = genCodes(rt, n, -4, 6, 8, "v")
+				c.V1 = int64(rapid.IntRange(-4, 6).Draw(rt, "v1"))
+				c.RTol = rapid.IntRange(0, len(c15Tols)-1).Draw(rt, "rtol")
+				c.ATol = rapid.IntRange(0, len(c15Tols)).Draw(rt, "atol")
+				c.Prior = rapid.SampledFrom([]string{"none", "allfalse", "random", "alltrue"}).Draw(rt, "prior")
+				if c.Prior == "random" {
+					c.PMask = make([]bool, n)
+					for i := range c.PMask {
+						c.PMask[i] = rapid.Bool().Draw(rt, "pm")
+					}
+				}
+				return c
+			})
+		}
+	}
 	// every mask over <= 10 elements
 	shapes := [][]int{{}, {1}, {4}, {1, 4}, {4, 1}, {2, 3}, {3, 3}, {2, 2, 2}, {1, 2, 3}}
 	if thorough() {
@@ -634,6 +928,24 @@ func TestC15(t *testing.T) {
 			c := &C15Inspect{Shape: shape, Mask: make([]bool, prod(shape)), L: genLayoutKind(rt, lk, len(shape), "l")}
 			for i := range c.Mask {
 				c.Mask[i] = rapid.IntRange(0, 2).Draw(rt, "m") == 0
+			}
+			c.DT = rapid.SampledFrom([]string{"", "", "int8", "uint8", "int64", "float32", "float64", "complex64", "string", "bool", "uint32"}).Draw(rt, "dt")
+			return c
+		})
+	}
+	// single bits through every kind of handle
+	for _, lk := range []string{"contig", "cmraw", "lazyT", "sliced", "leadsliced", "stepsliced", "slicedT", "cmraw+lazyT", "picked", "clonedview", "materialized"} {
+		lk := lk
+		cell(t, "C15", "C15.set", "set/"+lk, nCases(40, 1000), func(rt *rapid.T) Case {
+			shape := genShapeMin2(rt, 1, 3, 4, "s")
+			c := &C15Set{Shape: shape, Mask: make([]bool, prod(shape)), L: genLayoutKind(rt, lk, len(shape), "l")}
+			for i := range c.Mask {
+				c.Mask[i] = rapid.IntRange(0, 2).Draw(rt, "m") == 0
+			}
+			c.K = rapid.IntRange(0, 1000).Draw(rt, "k")
+			c.V = rapid.Bool().Draw(rt, "v")
+			if rapid.IntRange(0, 3).Draw(rt, "badq") == 0 {
+				c.Bad = rapid.IntRange(1, 4).Draw(rt, "bad")
 			}
 			return c
 		})
